@@ -324,6 +324,9 @@ Definition apply_builtin (b : builtin) (args : list val) : R val :=
   | BChunks, _ => Exc Unmodelled
   | BIsInt, [VInt _] => Val (VBool true)          (* type(x) == int: exactly int, not bool *)
   | BIsInt, [_] => Val (VBool false)
+  | BIsInstanceInt, [VInt _] => Val (VBool true)  (* isinstance(x, int): bool is a subclass of int *)
+  | BIsInstanceInt, [VBool _] => Val (VBool true)
+  | BIsInstanceInt, [_] => Val (VBool false)
   | _, _ => Exc TypeError
   end.
 
@@ -450,6 +453,7 @@ Fixpoint eval (en : env) (e : expr) {struct e} : R val :=
       | VObj _ fs => match nth_error fs i with Some v => Val v | None => Exc Unmodelled end
       | _ => Exc Unmodelled
       end
+  | EObj cls fs => let! vs := evals en fs in Val (VObj cls vs)
   | ESlice a lo hi =>
       let! va := eval en a in
       let! vlo := match lo with Some x => let! v := eval en x in opt_int (Some v) | None => Val None end in
@@ -547,6 +551,11 @@ Fixpoint exec (en : env) (s : stmt) {struct s} : sres :=
   | SWhile c body => while_loop fuel (fun en1 => eval en1 c) (fun en1 => exec_block en1 body) en
   | SReturn e => match eval en e with Exc z => SExc z | Val v => SRet v end
   | SRaise z => SExc z
+  | STry body z handler =>
+      match exec_block en body with
+      | SExc z' => if exn_eqb z' z then exec_block en handler else SExc z'
+      | o => o
+      end
   | SBreak => SBrk en
   | SPass => SNormal en
   end
